@@ -1,6 +1,6 @@
 CONSTANTS
-  MaxSize = 11
-  Prof <- ProfFault
+  MaxSize = 12
+  Prof <- ProfGuard
   MathTable <- NoTable
   GenBackend = "any"
 INIT GInit
